@@ -11,6 +11,11 @@ func RemoveMatchComments(file *ast.File, pattern *regexp.Regexp) {
 	for _, group := range file.Comments {
 		_ = ExtractMatchComments(group, pattern)
 	}
+	// A package doc comment that consisted of matching lines only is gone:
+	// an empty comment group has no position.
+	if file.Doc != nil && len(file.Doc.List) == 0 {
+		file.Doc = nil
+	}
 }
 
 // MatchComments reports whether any comment line in commentGroup contains
